@@ -594,3 +594,12 @@ func asSuffixErr(err error) *pointerSuffixError {
 //@ func (*Decoder).PeekKind
 //@ trusted NOT PROVED at this level: frame of Decoder.PeekKind (buffer, peek cache, offsets, lazily copied names)
 //@ modifies d.s.decodeBuffer.peekPos, d.s.decodeBuffer.peekErr, d.s.decodeBuffer.buf, d.s.decodeBuffer.buf[:cap(d.s.decodeBuffer.buf)], d.s.decodeBuffer.prevStart, d.s.decodeBuffer.prevEnd, d.s.decodeBuffer.baseOffset, d.s.state.Names.offsets[:], d.s.state.Names.unquotedNames, d.s.state.Names.unquotedNames[:cap(d.s.state.Names.unquotedNames)]
+
+// AtEOF only looks ahead (it may refill the buffer); the decoder's options and state
+// machine are not touched. (Frame as consumeWhitespace's, which it calls; assumed at
+// this level because its callers in the arshal layer do not carry the decoder's
+// representation invariant.)
+//
+//@ func (*decoderState).AtEOF
+//@ trusted NOT PROVED at this level: frame of AtEOF (that of consumeWhitespace)
+//@ modifies d.buf, d.buf[:cap(d.buf)], d.prevStart, d.prevEnd, d.baseOffset, d.Names.unquotedNames, d.Names.unquotedNames[:cap(d.Names.unquotedNames)], d.Names.offsets[:]
